@@ -624,7 +624,7 @@ namespace hs
                 p.add("markcap", {obj()});
                 break;
             case 16:
-                p.add("cycle", {obj(), (long long)r.below(3), (long long)r.below(12), (long long)r.below(64),
+                p.add("cycle", {obj(), (long long)r.below(4), (long long)r.below(12), (long long)r.below(64),
                                 (long long)r.below(2), (long long)r.size_biased(0, 4000)});
                 break;
             case 17:
